@@ -160,3 +160,14 @@ Theorem C02_write_format_is_source : forall r,
   = [SrcGen.src_fastq_Write_0 (Bio.Model.Fastq.name r) (Bio.Model.Fastq.seq r) (Bio.Model.Fastq.quals r)].
 Proof. exact SrcGenProofs.fastq_write_is_source. Qed.
 Print Assumptions C02_write_format_is_source.
+
+(* ---- tie to the Go source by translation of whole function bodies (gen/ImpGen.v, written
+   by `harness gen-imp` on every run, in the embedding of Model/GoSem.v) ------------------- *)
+From Bio.gen Require ImpGen.
+From Bio.Model Require GoSem.
+From Bio.Proofs Require ImpProofs ImpProofsG.
+
+Theorem C02_write_is_source : forall r,
+  ImpGen.imp_fastq_Fastq_Write (ImpProofsG.fq_of r) = GoSem.Ret (Bio.Model.Fastq.write_calls r, false).
+Proof. exact ImpProofsG.imp_Fastq_Write. Qed.
+Print Assumptions C02_write_is_source.
